@@ -1,12 +1,12 @@
 SPECIFICATION Spec
 CONSTANTS
-  ClipFiles <- Q_ClipFiles
-  Pad = 3
-  SpecSrcs <- Q_SpecSrcs
-  MaxW = 20
-  ResSrcs <- Q_ResSrcs
-  Targets <- Q_Targets
-  MaxNum = 64
+  ClipFiles <- T_ClipFiles
+  Pad = 4
+  SpecSrcs <- T_SpecSrcs
+  MaxW = 32
+  ResSrcs <- T_ResSrcs
+  Targets <- T_Targets
+  MaxNum = 200
   SpecStep = "realised"
   WinClamp = TRUE
   SeekClamp = TRUE
